@@ -4,9 +4,11 @@ import gens, blk, compcases as cc
 from capi import Lib
 from vlib import Oracle, build_lib, hx, md5
 
-THEOREMS = ["C01_factorisation_decodes", "C01_fast_generic_roundtrip", "C01_fast_extState_roundtrip", "C01_fastReset_history", "C01_initStream_ctx_ok"]
-CORRESPONDENCE = ["Model.FastApi.compress_fast_extState == LZ4_compress_default/_fast/_fast_extState (return value, bytes, context fields, hash table)",
+THEOREMS = ["C01_factorisation_decodes", "C01_fast_generic_roundtrip", "C01_fast_extState_roundtrip", "C01_fastReset_history", "C01_initStream_ctx_ok", "C01_compress_then_decompress_safe"]
+CORRESPONDENCE = ["Model.HcMidApi (LZ4MID_compress + one-shot HC entry points at levels 1-2, LZ4_compress_HC_destSize) == the real functions over call histories on one LZ4_streamHC_t (return value, consumed, bytes, both hash tables, end index, dirty flag after every call)",
+                  "Model.FastApi.compress_fast_extState == LZ4_compress_default/_fast/_fast_extState (return value, bytes, context fields, hash table)",
                   "Model.FastApi.compress_fast_extState_fastReset == LZ4_compress_fast_extState_fastReset over call histories on one context (return value, bytes, context fields, hash table after every call)"]
+ORACLES = ["block", "mid"]
 RULE = ("inputs from seeded structured generators (random, runs, periodic, text, barely compressible, long-match, self-dictionary, mixed) "
         "with boundary sizes (0..20, 64KB+-12, 65547, 4KB+-1) and exhaustive small-alphabet strings in the thorough tier; x entry point "
         "{default, fast, fast_extState(junk state), HC, HC_extStateHC(junk state), HC fastReset (+favorDecSpeed)} x acceleration/level x capacity {bound, bound-1, n, small}; "
@@ -16,19 +18,26 @@ TRUSTED = ["hand-written model Model/Fast.v + Model/FastApi.v of LZ4_compress_ge
 ASSUMPTIONS = ["64-bit little-endian target (byPtr table mode and big-endian hashing not modelled)"]
 
 def build(tier):
-    return {"lib": build_lib("default")}
+    return {"lib": build_lib("default"), "midstate": cc.midstate_lib()}
 
 def gen_cases(tier, seed):
     rng = random.Random(seed)
     n = {"quick": 96, "search": 320, "thorough": 800}[tier]
     cases = [{"bseed": rng.randrange(1 << 48), "count": 24, "mode": "mix", "maxn": 70000 if i % 6 == 0 else 3000} for i in range(n)]
+    nm = {"quick": 16, "search": 40, "thorough": 120}[tier]
+    cases += [{"bseed": rng.randrange(1 << 48), "count": 10 if i % 8 else 2, "mode": "mid", "maxn": 9000 if i % 8 else 70000} for i in range(nm)]
     if tier == "thorough":
         for a in range(16):
             cases.append({"bseed": a, "mode": "exh", "alpha": "ab", "len": 14, "shard": a, "nshards": 16, "count": 0})
         cases.append({"bseed": 99, "count": 4, "mode": "mix", "maxn": 3000000})
     return cases
 
-worker_init = blk.worker_init
+def worker_init(ctx):
+    import ctypes
+    from capi import Lib
+    st = blk.worker_init(ctx)
+    st["midlib"] = Lib(ctx["midstate"]); st["midraw"] = ctypes.CDLL(ctx["midstate"]); st["mid"] = Oracle(name="mid")
+    return st
 
 def one(st, src, rng, res, info):
     n = len(src)
@@ -41,8 +50,11 @@ def one(st, src, rng, res, info):
         info = dict(info, junk=rng.randrange(1 << 30))
         r, out = cc.run_fast(st, variant, src, cap, p, res, info)
         if variant == "ext":
-            info2 = dict(info, junk=info["junk"] + 1)
-            r2, out2 = cc.run_fast(st, variant, src, cap, p, res, info2, check_model=False)
+            for dj in (1, 2, 3):
+                info2 = dict(info, junk=info["junk"] + dj)
+                r2, out2 = cc.run_fast(st, variant, src, cap, p, res, info2, check_model=False)
+                if (r2, out2) != (r, out):
+                    break
             if (r2, out2) != (r, out):
                 res["fails"].append({"status": "prop_fail", "what": "LZ4_compress_fast_extState output depends on prior state bytes",
                                      "detail": dict(info, cap=cap, accel=p, n=n)})
@@ -52,7 +64,10 @@ def one(st, src, rng, res, info):
         info = dict(info, junk=rng.randrange(1 << 30))
         r, out = cc.run_hc(st, variant, src, cap, p, res, info)
         if variant == "hc_ext":
-            r2, out2 = cc.run_hc(st, variant, src, cap, p, res, dict(info, junk=info["junk"] + 1))
+            for dj in (1, 2, 3):          # the four prior-state patterns of blk.junk_state
+                r2, out2 = cc.run_hc(st, variant, src, cap, p, res, dict(info, junk=info["junk"] + dj))
+                if (r2, out2) != (r, out):
+                    break
             if (r2, out2) != (r, out):
                 res["fails"].append({"status": "prop_fail", "what": "LZ4_compress_HC_extStateHC output depends on prior state bytes",
                                      "detail": dict(info, cap=cap, level=p, n=n)})
@@ -69,6 +84,25 @@ def one(st, src, rng, res, info):
                                  "detail": dict(info, variant=variant, p=p, cap=cap, n=n, src=src.hex() if n <= 400 else "len=%d" % n, out=out.hex() if r <= 400 else "len=%d" % r)})
         if blk.nontrivial_block(out):
             res["keys"].add(cc.key_of(src, variant, p, cap))
+
+def far(st, src, rng, res, info):
+    """window-edge inputs (> 64 KB): every HC parser (mid, hash-chain, optimal, with and without favorDecSpeed) and the fast path"""
+    n = len(src); b = cc.bound(n)
+    for variant, p in [("default", 1)] + [("hc", l) for l in (1, 2, 4, 9, 10, 11)] + [("hc_fr_fav", 12)]:
+        if variant == "default":
+            r, out = cc.run_fast(st, variant, src, b, p, res, info)
+        else:
+            r, out = cc.run_hc(st, variant, src, b, p, res, dict(info, junk=rng.randrange(1 << 30)))
+        res["stats"]["variant_" + variant] += 1
+        if r <= 0 or r > b:
+            res["fails"].append({"status": "prop_fail", "what": "%s(%d) returned %d at bound capacity" % (variant, p, r), "detail": dict(info, n=n)})
+            continue
+        err = blk.decode_checks(st, src, out, caps=[n])
+        if err:
+            res["fails"].append({"status": "prop_fail", "what": "round trip failed (%s, parameter %d): %s" % (variant, p, err),
+                                 "detail": dict(info, n=n, variant=variant, p=p)})
+        if blk.nontrivial_block(out):
+            res["keys"].add(cc.key_of(src, variant, p, b))
 
 def history(st, rng, res, info):
     """fast-reset one-shot calls of varying size class on one context (C01 entry point + reuse)"""
@@ -99,9 +133,43 @@ def history(st, rng, res, info):
             if blk.nontrivial_block(out):
                 res["keys"].add(cc.key_of(src, "fr", acc, cap))
 
+def mid_history(st, rng, res, info, maxn):
+    """HC levels 1-2 (LZ4MID): fast-reset one-shot calls and destSize calls on one LZ4_streamHC_t, model == code after every
+    call (bytes, both hash tables, end index, dirty flag), and every produced block judged by the specification decoder"""
+    calls = []
+    for _ in range(rng.choice([1, 2, 3, 5])):
+        n = rng.choice([0, 1, 5, 12, 13, 14, 20, 100, 1000, 3000, 4096, 9000]) if maxn < 20000 else rng.choice([100, 3000, 20000, 65536 + 40, 70000])
+        if rng.random() < 0.3:
+            n = rng.randrange(0, min(maxn, 9000))
+        kind = rng.choice(gens.KINDS)
+        src = gens.data(rng, kind, n)
+        if calls and rng.random() < 0.5:
+            prev = calls[-1][1]
+            src = (prev[:len(src) // 2] + src)[:n]
+        b = cc.bound(n)
+        if rng.random() < 0.3:
+            calls.append(("ds", src, rng.choice([1, 2, 5, 12, 13, 20, n // 3 + 1, n // 2 + 7, b, rng.randrange(1, b + 2)])))
+        else:
+            calls.append(("fr", src, rng.choice([b, b, b + 5, max(0, b - 1), n // 2 + 4, rng.randrange(0, b + 2)])))
+    level = rng.choice([1, 2])
+    outs = cc.run_mid_session(st, calls, res, info, level=level)
+    for (kind, src, r, consumed, out) in outs:
+        res["stats"]["variant_mid_" + kind] += 1
+        if r > 0:
+            err = blk.decode_checks(st, src[:consumed], out)
+            if err:
+                res["fails"].append({"status": "prop_fail", "what": "LZ4MID (level %d, %s) round trip failed: %s" % (level, kind, err),
+                                     "detail": dict(info, sizes=[len(c[1]) for c in calls], caps=[c[2] for c in calls])})
+            if blk.nontrivial_block(out):
+                res["keys"].add(cc.key_of(src, "mid" + kind, level, len(out)))
+
 def run_case(st, case):
     rng = random.Random(case["bseed"])
     res = cc.new_res()
+    if case["mode"] == "mid":
+        for j in range(case["count"]):
+            mid_history(st, rng, res, {"bseed": case["bseed"], "j": j, "mid": 1}, case["maxn"])
+        return cc.finish(res, "mid")
     if case["mode"] == "exh":
         alpha = case["alpha"].encode()
         k = 0
@@ -114,7 +182,12 @@ def run_case(st, case):
         for j in range(case["count"]):
             kind = rng.choice(gens.KINDS)
             n = gens.size(rng, case["maxn"])
+            if case["maxn"] >= 70000 and j % 4 == 0:
+                kind = rng.choice(gens.FAR_KINDS)        # window-edge generators (need > 64 KB)
             src = gens.data(rng, kind, n)
+            if kind in gens.FAR_KINDS:
+                far(st, src, rng, res, {"bseed": case["bseed"], "j": j, "dkind": kind})
+                continue
             one(st, src, rng, res, {"bseed": case["bseed"], "j": j, "dkind": kind})
             if j % 6 == 0:
                 history(st, rng, res, {"bseed": case["bseed"], "j": j, "hist": 1})
